@@ -37,7 +37,7 @@ ASSUMPTIONS = [
     'does not list it)',
 ]
 ANCHORS = ['Table.to_json', 'Table.from_json', 'NpEncoder.default', 'parse_biom_table', 'load_table']
-REQUIRED = ['reader_parse_table_string', 'reader_load_table_handle',
+REQUIRED = ['unencodable_metadata_refused', 'reader_parse_table_string', 'reader_load_table_handle',
             'reader_cli_convert_to_json', 'writer_string_form', 'writer_direct_io_form',
             'reader_load_table', 'reader_load_table_gz',
             'reader_parse_table_handle', 'reader_parse_table_chunks',
@@ -146,8 +146,54 @@ def needs_escape(s):
     return any(c in '"\\' or ord(c) < 0x20 for c in s)
 
 
+def unencodable_case(ctx, index, r):
+    """A metadata value JSON has no form for (a date, bytes, a set, a
+    Decimal ...) cannot be written so that it reads back as itself: the
+    writer refuses, in both forms, rather than writing something else."""
+    import datetime as _dt
+    import decimal
+    import pathlib
+    biom = ctx.biom
+    n, m = r.randint(1, 3), r.randint(1, 3)
+    D = gen.gen_matrix(r, n, m, 'count', .7)
+    obs = gen.gen_ids(r, n, 'ascii', 'O')
+    samp = gen.gen_ids(r, m, 'ascii', 'S')
+    name, val = r.choice([
+        ('date', _dt.date(2020, 1, 2)), ('bytes', b'ACGT'),
+        ('frozenset', frozenset(['gut'])), ('Decimal', decimal.Decimal('1.5')),
+        ('complex', 3 + 4j), ('Path', pathlib.PurePosixPath('/a/b')),
+        ('set', {'a'}), ('datetime', _dt.datetime(2020, 1, 2, 3, 4)),
+        ('object', object())])
+    md = [{'k': 'plain', 'v': 1} for _ in obs]
+    md[r.randrange(n)]['v'] = val
+    axis = r.choice(['observation', 'sample'])
+    if axis == 'sample':
+        md = [{'k': 'plain', 'v': 1} for _ in samp]
+        md[r.randrange(m)]['v'] = val
+    t = biom.Table(D, obs, samp, md if axis == 'observation' else None,
+                   md if axis == 'sample' else None)
+    desc = {'unencodable_metadata': name, 'axis': axis}
+    for form in ('string', 'direct_io'):
+        try:
+            if form == 'string':
+                text = t.to_json('vm')
+            else:
+                buf = io.StringIO()
+                t.to_json('vm', direct_io=buf)
+                text = buf.getvalue()
+        except Exception:
+            ctx.count('unencodable_metadata_refused')
+            continue
+        raise Violation('C02/unencodable-metadata-written', 'a %s in the '
+                        'metadata was written (%s form) as %r; case=%r' %
+                        (name, form, text[-200:], desc))
+    ctx.case(desc, True)
+
+
 def run_case(ctx, index):
     r = ctx.rng(index)
+    if index % 37 == 5:
+        return unencodable_case(ctx, index, r)
     biom = ctx.biom
     n, m = r.randint(1, 5), r.randint(1, 5)
     vclass = r.choice(['tiny', 'manydigits', 'huge', 'subnormal', 'frac',
